@@ -138,6 +138,8 @@ class Scenario:
         while True:
             m = rng.choice([1, 2, 2, 3])
             na = rng.randint(max(1, math.ceil(nb / m)), 4 if m > 1 else 6)
+            if rng.random() < 0.15 and nb <= 8:
+                m, na = 1, nb            # as many batches as settings (where a larger batch count can be asked for)
             n = na * m
             if n < nb or n > 12:
                 continue
@@ -148,6 +150,10 @@ class Scenario:
                 self.batchsize, self.num_batches = rng.choice(cands), None
             else:
                 self.batchsize, self.num_batches = None, nb
+                if n == nb and rng.random() < 0.5:
+                    # a batch count asked for that EXCEEDS the number of settings (capped to it when sown); every
+                    # recovery re-creates the crop with the same request
+                    self.num_batches = nb + rng.randint(1, 2)
             break
         self.A = sorted(rng.sample(range(1, 9), na))
         self.Bv = list(range(m))
